@@ -137,6 +137,7 @@ def build_merged(case, d):
 def oracle_c14(ctx, desc, f0, spec, src, out, m, label, factor, case):
     def V(kind, msg, **kw):
         ctx.violation(kind, desc, msg, dict(f0, **kw))
+    out = str(out)
     table, _bad = c13.alf_files(out, label)
 
     def load(obj, attr):
